@@ -184,8 +184,9 @@ def decodeLoop (app : App) (cycle : Int) : Nat → State → M State
         let s := { s with controlBus := s.controlBus.add { instr := i, pc := pc, seq := pc + s.ctx.sequenceID * 1000#32 } cycle }
         if jump then pure s
         else
-          let s := if i.instructionType == Gen.InstructionType.Ret then { s with du := { s.du with ret := true } } else s
-          decodeLoop app cycle n s
+          -- since /repo 9745825: `u.ret = true; return` — nothing behind a return is decoded, not even in this cycle
+          if i.instructionType == Gen.InstructionType.Ret then pure { s with du := { s.du with ret := true } }
+          else decodeLoop app cycle n s
 
 def decodeCycle (app : App) (s : State) : M State :=
   if s.du.ret then pure s
